@@ -320,6 +320,23 @@ def check_property(prop, tier, seed):
         for ln_, (props_, label_) in unit.labels.items():
             labels_props[(uname, label_)] = props_
         if res.hard:
+            # a helper the change split off (a method or function of the same source files that the unit does not
+            # extract): paste its body at the call sites (R-inline; only for bodies without return / ? / loops) and retry
+            missing = sorted(set(re.findall(r"no method named `(\w+)` found|cannot find function `(\w+)`", '\n'.join(res.hard))))
+            names = [a or b for a, b in missing]
+            if names:
+                try:
+                    unit2 = assemble(tmpl, out, inlines=names)
+                    if unit2.inlines:
+                        collect_lemma_tags(unit2)
+                        js, diags, wall2, cmd, stderr = run_verus('%s_%s' % (uname, prop), out, extra=extra)
+                        wall += wall2
+                        unit = unit2
+                        res = analyse(unit, js, diags)
+                        cmds.append('cd /verif/build && ' + cmd + '   # after R-inline of ' + ', '.join(n for n, _ in unit.inlines))
+                except (ExtractError, Undecided) as e:
+                    undecided.append('R-inline failed in unit %s: %s' % (uname, e))
+        if res.hard:
             undecided.append('verus rejected unit %s (not a proof failure): %s' % (uname, res.hard[0][:1500]))
             undecided_units.append(uname)
             continue
